@@ -502,7 +502,7 @@ Example C11_nan_examples :
   gduplicate feq [0; nz; N; 1; N; 1; nz] = [nz; 1] /\
   gduplicate_ref feq [0; nz; N; 1; N; 1; nz] = [0; 1] /\
   Permutation [(1, 2); (N, 1); (nz, 3); (N, 1)] (gkey_count feq [0; nz; N; 1; N; 1; nz]) /\
-  gdwi_map feq [1; nz; 0; N; nz] = [(1, (0, 1)); (nz, (1, 3)); (N, (3, 1))] /\
+  gdwi_map feq [1; nz; 0; N; nz] = [(1, (0, 1)); (nz, (1, 2)); (N, (3, 1))] /\
   gduplicate_with_index feq [1; nz; 0; N; nz] = [(nz, 1)] /\
   (2 <= gcount feq 0%Z [0%Z; nz; N])%nat /\ gcount feq N [N; N] = 0%nat /\
   pairwise_ne feq [N; 1; N; 0].
@@ -513,6 +513,5 @@ Proof.
     change (gkey_count feq [0; negz_code; nan_code; 1; nan_code; 1; negz_code])
       with ([(negz_code, 3); (nan_code, 1)] ++ [(1, 2); (nan_code, 1)]).
     apply Permutation_app_comm.
-  - vm_compute. apply le_n.
-  - cbn. repeat split; intros y Hy; cbn in Hy; intuition (subst; reflexivity).
+  - cbn [pairwise_ne]. repeat split; intros y Hy; cbn [In] in Hy; intuition (subst; reflexivity).
 Qed.
